@@ -353,7 +353,7 @@ public:
 		}
 		else {
 			// filter out the easy stuff
-			if (a < b) { r = a; clear(); return; }
+			if (compare_magnitude(a, b) < 0) { r = a; clear(); return; }
 
 			// determine first non-zero limbs
 			unsigned m{ 0 }, n{ 0 };
@@ -1157,6 +1157,8 @@ inline std::string to_hex(const einteger<BlockType>& a, bool wordMarker = true) 
 
 template<typename BlockType>
 inline bool operator==(const einteger<BlockType>& lhs, const einteger<BlockType>& rhs) {
+	if (lhs.iszero() && rhs.iszero()) return true; // zero has no sign
+	if (lhs.sign() != rhs.sign()) return false;
 	if (lhs.limbs() != rhs.limbs()) {
 		return false;
 	}
@@ -1176,19 +1178,26 @@ inline bool operator!=(const einteger<BlockType>& lhs, const einteger<BlockType>
 
 template<typename BlockType>
 inline bool operator< (const einteger<BlockType>& lhs, const einteger<BlockType>& rhs) {
-	unsigned ll = lhs.limbs();
-	unsigned rl = rhs.limbs();
+	bool lneg = lhs.isneg() && !lhs.iszero();
+	bool rneg = rhs.isneg() && !rhs.iszero();
+	if (lneg != rneg) return lneg;
+	// equal signs: order the magnitudes, the other way round for two negative values
+	const einteger<BlockType>& a = (lneg ? rhs : lhs);
+	const einteger<BlockType>& c = (lneg ? lhs : rhs);
+	unsigned ll = a.limbs();
+	unsigned rl = c.limbs();
 	if (ll < rl) return true;
 	if (ll > rl) return false;
+	if (ll == 0) return false; // both are zero
 	for (unsigned b = ll - 1; b > 0; --b) {
-		BlockType l = lhs.block(b);
-		BlockType r = rhs.block(b);
+		BlockType l = a.block(b);
+		BlockType r = c.block(b);
 		if (l < r) return true;
 		else if (l == r) continue;
 		else return false;
 	}
-	BlockType l = lhs.block(0);
-	BlockType r = rhs.block(0);
+	BlockType l = a.block(0);
+	BlockType r = c.block(0);
 	if (l < r) return true;
 	return false; // lhs and rhs are the same
 }
